@@ -31,7 +31,12 @@ struct FileCases {
     bdl_range: (usize, usize),
     /// grey-box value substitutions in the XML part: (line, byte start, byte end, replacement literal)
     lits: Vec<(usize, usize, usize, String)>,
+    /// further single edits: (line, kind, byte start, byte end); kind 0 = the file ends in the middle of the line (at
+    /// byte start), 1 = the text of an XML element emptied, 2 = an XML attribute removed
+    extras: Vec<(usize, u8, usize, usize)>,
 }
+
+const EXTRA_KINDS: [&str; 3] = ["truncate-midline", "xml-empty-text", "xml-remove-attribute"];
 
 const NUM_REPL: [&str; 5] = ["abc", "1e39", "-1", "99999999", "0"];
 
@@ -197,11 +202,42 @@ impl FileCases {
                 }
             }
         }
-        FileCases { path: path.to_string(), fmt, lines, crlf, blocks, refs, nums, bdl_range, lits }
+        let mut extras = vec![];
+        for (li, l) in lines.iter().enumerate() {
+            if l.len() >= 2 {
+                let mut cut = l.len() / 2;
+                while !l.is_char_boundary(cut) {
+                    cut += 1;
+                }
+                extras.push((li, 0u8, cut, cut));
+            }
+            if fmt == Fmt::Ctehexml && !(li >= bdl_range.0 && li < bdl_range.1) {
+                if let (Some(a), Some(b)) = (l.find('>'), l.rfind("</")) {
+                    if b > a + 1 {
+                        extras.push((li, 1, a + 1, b));
+                    }
+                }
+                // attributes: ' name="value"'
+                let bytes = l.as_bytes();
+                let mut i = 0;
+                while let Some(eq) = l[i..].find("=\"").map(|p| p + i) {
+                    let start = l[..eq].rfind(' ').unwrap_or(eq);
+                    if let Some(close) = l[eq + 2..].find('"').map(|p| p + eq + 2) {
+                        if bytes.get(start) == Some(&b' ') && l[..start].contains('<') {
+                            extras.push((li, 2, start, close + 1));
+                        }
+                        i = close + 1;
+                    } else {
+                        break;
+                    }
+                }
+            }
+        }
+        FileCases { path: path.to_string(), fmt, lines, crlf, blocks, refs, nums, bdl_range, lits, extras }
     }
 
     fn n_cases(&self) -> u64 {
-        (3 * self.lines.len() + self.blocks.len() + self.refs.len() + NUM_REPL.len() * self.nums.len() + self.lits.len()) as u64
+        (3 * self.lines.len() + self.blocks.len() + self.refs.len() + NUM_REPL.len() * self.nums.len() + self.lits.len() + self.extras.len()) as u64
     }
 
     fn describe(&self, k: u64) -> (String, Value) {
@@ -225,6 +261,10 @@ impl FileCases {
                 return ("rename-reference".into(), json!({"file": f, "edit": "rename reference", "line": l + 1, "name": nme}));
             }
             r -= self.refs.len();
+            if r >= NUM_REPL.len() * self.nums.len() + self.lits.len() {
+                let (l, kind, a, b) = self.extras[r - NUM_REPL.len() * self.nums.len() - self.lits.len()];
+                return (EXTRA_KINDS[kind as usize].into(), json!({"file": f, "edit": EXTRA_KINDS[kind as usize], "line": l + 1, "bytes": [a, b], "text": self.lines[l].chars().take(160).collect::<String>()}));
+            }
             if r >= NUM_REPL.len() * self.nums.len() {
                 let (l, a, b, rep) = &self.lits[r - NUM_REPL.len() * self.nums.len()];
                 return ("xml-value->source-literal".into(), json!({"file": f, "edit": "replace XML value by a literal the parser branches on", "line": l + 1, "old": &self.lines[*l][*a..*b], "new": rep}));
@@ -260,6 +300,16 @@ impl FileCases {
                     ls[*l] = ls[*l].replacen(nme.as_str(), &format!("{}_XX", nme), 1);
                 } else {
                     r -= self.refs.len();
+                    if r >= NUM_REPL.len() * self.nums.len() + self.lits.len() {
+                        let (l, kind, a, b) = self.extras[r - NUM_REPL.len() * self.nums.len() - self.lits.len()];
+                        if kind == 0 {
+                            ls.truncate(l + 1);
+                            ls[l] = self.lines[l][..a].to_string();
+                        } else {
+                            ls[l] = format!("{}{}", &self.lines[l][..a], &self.lines[l][b..]);
+                        }
+                        return ls.join(if self.crlf { "\r\n" } else { "\n" });
+                    }
                     if r >= NUM_REPL.len() * self.nums.len() {
                         let (l, a, b, rep) = &self.lits[r - NUM_REPL.len() * self.nums.len()];
                         ls[*l] = format!("{}{}{}", &self.lines[*l][..*a], rep, &self.lines[*l][*b..]);
@@ -424,8 +474,20 @@ pub fn run(ctx: &Ctx) -> i32 {
             }
         }
     }
+    if part == "extras" || part == "extras-all" {
+        for (fi, f) in st.files.iter().enumerate() {
+            let n = f.lines.len() as u64;
+            let base = st.offsets[fi] + 3 * n + f.blocks.len() as u64 + f.refs.len() as u64 + (NUM_REPL.len() * f.nums.len()) as u64 + f.lits.len() as u64;
+            for (k, e) in f.extras.iter().enumerate() {
+                // the XML-side kinds everywhere, mid-line truncation only outside the BDL text (inside it, it is a deleted tail)
+                if part == "extras-all" || e.1 != 0 || (f.fmt == Fmt::Ctehexml && !(e.0 >= f.bdl_range.0 && e.0 < f.bdl_range.1)) {
+                    idxs.push(base + k as u64);
+                }
+            }
+        }
+    }
     match ctx.tier {
-        _ if part == "xml" || part == "lits" => {}
+        _ if part == "xml" || part == "lits" || part.starts_with("extras") => {}
         Tier::Thorough => idxs = (0..total).collect(),
         Tier::Quick => {
             for (fi, _f) in st.files.iter().enumerate() {
@@ -494,7 +556,7 @@ pub fn run(ctx: &Ctx) -> i32 {
     ctx.sample(json!({"kind": k1, "case": d1}));
     ctx.finish(
         "fault_enumeration",
-        &format!("every single-edit corruption {{delete line, duplicate line, truncate after line}} of every line, {{remove block}} for every BDL block, {{rename reference}} for every reference occurrence, every numeric token x {{abc, 1e39, -1, 99999999}} of every shipped project file (12 .ctehexml, 56 .cte, 6 KyG, 7 .tbl: {} damaged files); thorough runs all of them, quick runs every edit of the smallest file of each format (deterministic core) plus the slice i = VERIF_SEED mod {} of the rest; each damaged text goes through ctehexml::parse + cached catalog + Model::try_from (resp. Data::new, kyg::parse, tbl::parse) in a supervised worker (15 s watchdog, 4 GiB, panic-site capture); non-trivial = the damage is noticed (error or panic)", total, stride),
+        &format!("every single-edit corruption {{delete line, duplicate line, truncate after line, truncate in the middle of the line}} of every line, {{element text emptied, attribute removed}} for every element / attribute of the XML part, {{remove block}} for every BDL block, {{rename reference}} for every reference occurrence, every numeric token x {{abc, 1e39, -1, 99999999}} of every shipped project file (12 .ctehexml, 56 .cte, 6 KyG, 7 .tbl: {} damaged files); thorough runs all of them, quick runs every edit of the smallest file of each format (deterministic core) plus the slice i = VERIF_SEED mod {} of the rest; each damaged text goes through ctehexml::parse + cached catalog + Model::try_from (resp. Data::new, kyg::parse, tbl::parse) in a supervised worker (15 s watchdog, 4 GiB, panic-site capture); non-trivial = the damage is noticed (error or panic)", total, stride),
         ctx.tier == Tier::Thorough,
         json!({"space_size": total}),
     )
